@@ -1,16 +1,20 @@
 ------------------------------ MODULE OptionsMC ------------------------------
-(* Small-constant instances of Options.tla for exhaustive checking:           *)
+(* Small-constant instances of Options.tla for exhaustive checking.           *)
+(* Cells c0, c1, c2 start with the valid contents v0, v1, v2, cell cb with    *)
+(* the invalid content; every option's default is c0.                         *)
 (*   A  one thread, 2 options x 2 values, blocks nested 3 deep  (block laws)  *)
 (*   B  two threads, 2 options x 2 values, one block each       (isolation)   *)
 (*   C  three threads, 1 option x 2 values, nesting 2/1/1       (isolation)   *)
+(*   H  one thread, 2 options, cell c1 mutable (the user may rewrite it at    *)
+(*      any time), blocks nested 2 deep                        (heap laws)    *)
 (*   T* thorough-tier variants with larger constants                          *)
 (* every configuration passes maps of up to MaxMap entries over the option    *)
-(* names + one unknown name and the values + one invalid value.               *)
+(* names + one unknown name and all cells (so also the invalid one).          *)
 EXTENDS Options
-CONSTANTS t1, t2, t3, o1, o2, o3, v0, v1, v2,
+CONSTANTS t1, t2, t3, o1, o2, o3, v0, v1, v2, c0, c1, c2, cb,
           MaxMap              \* bound on the number of options passed at once
 
-Maps == UNION {[D -> AllVals] : D \in {S \in SUBSET Names : Cardinality(S) <= MaxMap}}
+Maps == UNION {[D -> Cells] : D \in {S \in SUBSET Names : Cardinality(S) <= MaxMap}}
 
 DoSpawn == \E t \in Threads : Spawn(t)
 DoDie   == \E t \in Threads : Die(t)
@@ -18,18 +22,23 @@ DoCall  == \E t \in Threads, m \in Maps : Call(t, m)
 DoSet   == \E t \in Threads, m \in Maps : SetOptions(t, m)
 DoEnter == \E t \in Threads, m \in Maps : EnterWith(t, m)
 DoExit  == \E t \in Threads, how \in {"normal", "exception"} : ExitWith(t, how)
+DoWrite == \E c \in Mutable, v \in Vals : UserWrite(c, v)
 
-Next == DoSpawn \/ DoDie \/ DoCall \/ DoSet \/ DoEnter \/ DoExit
+Next == DoSpawn \/ DoDie \/ DoCall \/ DoSet \/ DoEnter \/ DoExit \/ DoWrite
 Spec == Init /\ [][Next]_vars
 
-Def1  == (o1 :> v0)
-Def2  == (o1 :> v0) @@ (o2 :> v0)
-Def3  == (o1 :> v0) @@ (o2 :> v0) @@ (o3 :> v0)
+Heap2 == (c0 :> v0) @@ (c1 :> v1) @@ (cb :> Bad)
+Heap3 == (c0 :> v0) @@ (c1 :> v1) @@ (c2 :> v2) @@ (cb :> Bad)
+Def1  == (o1 :> c0)
+Def2  == (o1 :> c0) @@ (o2 :> c0)
+Def3  == (o1 :> c0) @@ (o2 :> c0) @@ (o3 :> c0)
 NestA == (t1 :> 3)
 NestB == (t1 :> 1) @@ (t2 :> 1)
 NestC == (t1 :> 2) @@ (t2 :> 1) @@ (t3 :> 1)
+NestH == (t1 :> 2)
 NestS == (t1 :> 3) @@ (t2 :> 3) @@ (t3 :> 3)
 NestTA == (t1 :> 4)
 NestTB == (t1 :> 2) @@ (t2 :> 1)
 NestTC == (t1 :> 2) @@ (t2 :> 2) @@ (t3 :> 1)
+NestTH == (t1 :> 2) @@ (t2 :> 1)
 =============================================================================
